@@ -653,6 +653,22 @@ func (in *minInst) build() *minRun {
 			}
 			if log.allFinite() && log.stalled(200) {
 				kind += "/same-point-re-evaluated-forever"
+				if usesLS(in.method) {
+					// name the line searcher in effect: the known stall is
+					// MoreThuente's (also CG's default)
+					ls := []string{"", "Backtracking", "Bisection", "MoreThuente"}[in.ls]
+					if ls == "" {
+						switch {
+						case in.method == mGD:
+							ls = "Backtracking"
+						case in.method >= mCGFR && in.method <= mCGHZ:
+							ls = "MoreThuente"
+						default:
+							ls = "Bisection"
+						}
+					}
+					kind += "/" + ls
+				}
 			}
 			simrt.Fail(fmt.Sprintf("nontermination/%s: %s: more than %d objective callbacks (%d func, %d grad) without Minimize stopping; limits %s", kind, methodNames[in.method], runawayLimit, log.nFunc, log.nGrad,
 				fmt.Sprintf("func=%d major=%d grad=%d hess=%d runtime=%v", in.set.FuncEvaluations, in.set.MajorIterations, in.set.GradEvaluations, in.set.HessEvaluations, in.set.Runtime)))
